@@ -87,11 +87,14 @@ def determinism_sample(mod, check, tier, plan, n=32):
         population = pops[j % len(pops)]
         i = j // len(pops)
         d = []
-        for _ in range(2):
-            trace = core.isolated_generate(SPEC_OF[check], check, seed,
-                                           population, tier, i, i + 1)[0]
-            d.append(core.isolated_execute(SPEC_OF[check], check,
-                                           trace)['digest'])
+        try:
+            for _ in range(2):
+                trace = core.isolated_generate(SPEC_OF[check], check, seed,
+                                               population, tier, i, i + 1)[0]
+                d.append(core.isolated_execute(SPEC_OF[check], check,
+                                               trace)['digest'])
+        except core.ChildFailed:
+            continue   # a stalled/crashed run is the batch's business
         cnt += 1
         if d[0] != d[1]:
             bad.append((population, i))
@@ -174,7 +177,11 @@ def main(argv):
             continue
         # shrink, write replay, verify in a fresh interpreter
         vbuf = None
-        res0 = core.isolated_execute(SPEC_OF[check], check, trace)
+        try:
+            res0 = core.isolated_execute(SPEC_OF[check], check, trace)
+        except core.ChildFailed as e:
+            harness_problem = 'violating run %s/%d: %s' % (population, i, e)
+            continue
         v0 = res0['violation']
         if v0 is None or v0.cls != cls:
             harness_problem = ('violation of run %s/%d did not reproduce '
@@ -182,8 +189,11 @@ def main(argv):
             continue
         vbuf = getattr(v0, 'buf', None)
         small, execs, ok = mod.shrink(check, trace, cls, vbuf)
-        res1 = core.isolated_execute(SPEC_OF[check], check, small)
-        v1 = res1['violation']
+        try:
+            res1 = core.isolated_execute(SPEC_OF[check], check, small)
+            v1 = res1['violation']
+        except core.ChildFailed:
+            res1, v1 = res0, None
         if v1 is None or v1.cls != cls:
             small, res1, v1 = trace, res0, v0
         path = core.write_replay(check, prop, population, i, small,
